@@ -136,6 +136,7 @@ def run_impl(case, flags):
     # what graph_to_logic says about who owns which variable
     tabs['varlist'] = dict(env=sorted(aut.varlist['env']),
                            sys=sorted(aut.varlist['sys']))
+    tabs['nd_dom'] = [int(x) for x in aut.vars[NODEVAR]['dom']]
     return aut, sp, tabs
 
 
@@ -309,11 +310,19 @@ def blit(b):
 
 
 def nlit(n):
-    return f'{n}%N'
+    # hexadecimal: parsed about 3x faster than decimal by Coq 8.16
+    return f'{hex(n)}%N'
 
 
-def nslit(ns):
-    return '[' + '; '.join(nlit(n) for n in ns) + ']'
+def rle_lit(rows):
+    """Run-length encoded rows for GraphTables.expand."""
+    out = []
+    for r in rows:
+        if out and out[-1][1] == r:
+            out[-1][0] += 1
+        else:
+            out.append([1, r])
+    return '[' + '; '.join(f'({c}%N, {nlit(r)})' for c, r in out) + ']'
 
 
 # ------------------------------------------------------------ oracle
@@ -452,7 +461,9 @@ def rand_elabel(rng, case, rich=True):
     if 'z' in case['vars']:
         keys += ['z', "z'"]
     if rich:
-        keys += ['w', "w'"]
+        # an undeclared key (skipped) and the node variable itself, unprimed
+        # (it is in `dvars`; "nd'" is overwritten by the code, never used)
+        keys += ['w', "w'", 'nd']
     k = rng.choice([0, 0, 1, 1, 1, 2, 3])
     picked = rng.sample(keys, min(k, len(keys)))
     if 'formula' in d and rng.random() < 0.5:
